@@ -39,7 +39,7 @@ import itertools, json, os, re
 from vlib import treegen as tg, paths
 from checks import c06
 
-LEAN_TARGETS = ["LyModel.Props.C13", "LyModel.Props.C13Merge", "LyModel.Props.C13Tree", "LyModel.Props.C13RevUO"]
+LEAN_TARGETS = ["LyModel.Props.C13", "LyModel.Props.C13Merge", "LyModel.Props.C13Tree", "LyModel.Props.C13RevUO", "LyModel.Props.C13RevUOTree"]
 AUDIT = "Audit/C13.lean"
 GENERATED = ["Diff13"]
 HARNESS = "api_diff13"
@@ -613,9 +613,14 @@ def process(cx, schemas, cases, tag, reverse=True, merge=True, laws_every=4, mer
             i = l.split()[0]
             k, c = hidx[i]
             r = hm.get(i, ["err", "NoReply"])
-            if r[0] != "ok" or len(r) != 5:
-                cx.disagree(COMP, l, ["ok", "?", "?", "?", "?"], r)
+            if r[0] != "ok" or len(r) != 6:
+                cx.disagree(COMP, l, ["ok", "?", "?", "?", "?", "?"], r)
                 continue
+            if r[1:4] == ["1", "1", "1"] and r[4] != r[5]:
+                # mergeSafe_of_computed (Diff/LemmasKeyCopy.lean): for computed diffs of well-formed trees the conditions on the key
+                # copies hold by themselves, mergeSafe = mergeSafe0
+                cx.disagree(COMP, "mergeSafe_of_computed: mergeSafe0 and mergeSafe differ on a computed pair: " + l, ["ok"] + r[1:5] + [r[4]], r)
+            cx.dist["hyp3: mergeSafe0 (merge_apply_partial_tree_computed) " + ("holds" if r[5] == "1" else "fails")] += 1
             holds = r[1:5] == ["1", "1", "1", "1"]
             feat = merge_features(c.s, tg.untok(c.s, c.a), tg.untok(c.s, c.b), tg.untok(c.s, c.c), c.D1[1], c.D2[1], None, None, 1, 0)
             cells = sorted(x for x in feat if x.startswith("cell:"))
@@ -1012,6 +1017,19 @@ def exhaustive_reverse(cx):
         if kind in ("list", "leaflist"):
             # the identity-addressed kinds: the list core of userord_apply_diff / userord_reverse_apply against libyang's diff nodes
             core_tie(cx, kind, pairs, seen)
+        if kind == "leaflist":
+            # the open hypothesis of Props/C13RevUOTree.lean (reverse_apply_userord_flat_ll_fixed_of_diff): the diff of two flat
+            # top-level leaf-list sibling lists is the encoding of UORev.diffO, orig-value included — evaluated by the model on its
+            # own diff (= libyang's: stage 1 of process) for every exhaustive top-level pair
+            flat = [c for c in cases if c.a is not None and c.b is not None and not (c.A and c.A[0].sn.kind == "container")
+                    and not (c.B and c.B[0].sn.kind == "container") and 1 not in c.gap]
+            lines = ["h%d diff13 uohdiff %s %s %s" % (i, tg.hx(s.dsl()), c.a, c.b) for i, c in enumerate(flat)]
+            rm = run_model(cx, [s], lines)
+            for l in lines:
+                r = rm.get(l.split()[0], ["err", "NoReply"])
+                cx.count(" ".join(l.split()[2:]), False, "uohdiff:" + " ".join(r[:2]))
+                if r[:2] == ["ok", "0"] or r[0] != "ok":
+                    cx.disagree(COMP, l, ["ok", "1"], r)
         cx.notes.append("exhaustive (reverse) %s <= %d keys: %d of %d (pair, option) evaluations fail" % (
             kind, nk, cx.dist["law:reverse:fails"] - before[0],
             cx.dist["law:reverse:fails"] - before[0] + cx.dist["law:reverse:holds"] - before[1]))
